@@ -522,9 +522,47 @@ func c14SeamAdvertise(t *testing.T, c *vkit.Check) {
 		cfg{"two-certificates|rsa,ecdsa", []Certificate{certs[1].Cert, certs[0].Cert}},
 		cfg{"two-certificates|ecdsa,rsa", []Certificate{certs[0].Cert, certs[1].Cert}},
 		cfg{"auto-generated", nil})
+	// reconfig: before the description is generated the application calls SetConfiguration with another
+	// certificate list (a certificate renewed over the SAME private key / one over another key). Whatever that
+	// call answers, the description has to advertise what the transport will present.
+	type recfg struct {
+		name string
+		make func(cur []Certificate) []Certificate
+	}
+	reconfigs := []recfg{
+		{"", nil},
+		{"renewed-same-key", func(cur []Certificate) []Certificate {
+			if len(cur) != 1 {
+				return nil
+			}
+			r, err := GenerateCertificate(cur[0].privateKey)
+			if err != nil {
+				return nil
+			}
+
+			return []Certificate{*r}
+		}},
+		{"other-key", func(cur []Certificate) []Certificate {
+			if len(cur) != 1 {
+				return nil
+			}
+
+			return []Certificate{certs[(1)].Cert}
+		}},
+	}
 	for _, cf := range cfgs {
 		for _, mediaLevel := range []bool{false, true} {
-			for _, role := range []string{"offer", "answer"} {
+			for _, rolePlus := range []string{"offer", "answer", "offer|renewed-same-key", "offer|other-key", "answer|renewed-same-key"} {
+				role, rcName, _ := strings.Cut(rolePlus, "|")
+				var rc recfg
+				for _, x := range reconfigs {
+					if x.name == rcName {
+						rc = x
+					}
+				}
+				if rc.make != nil && len(cf.certs) != 1 {
+					continue
+				}
 				api := vNewAPI(t, vAPIOpts{setting: func(s *SettingEngine) { s.SetSDPMediaLevelFingerprints(mediaLevel) }})
 				var pc *PeerConnection
 				if cf.certs == nil {
@@ -534,6 +572,16 @@ func c14SeamAdvertise(t *testing.T, c *vkit.Check) {
 					}
 				} else {
 					pc = vNewPC(t, api, &Configuration{Certificates: cf.certs})
+				}
+				reconfigured := "n/a"
+				if rc.make != nil {
+					if nc := rc.make(cf.certs); nc != nil {
+						if err := pc.SetConfiguration(Configuration{Certificates: nc}); err == nil {
+							reconfigured = "accepted"
+						} else {
+							reconfigured = "refused"
+						}
+					}
 				}
 				var text string
 				if role == "offer" {
@@ -576,6 +624,9 @@ func c14SeamAdvertise(t *testing.T, c *vkit.Check) {
 				want := c14ColonHex(sum[:])
 				all, session := c14SDPFingerprints(text)
 				cls := fmt.Sprintf("cert=%s|media-level=%v|%s", cf.name, mediaLevel, role)
+				if rc.make != nil {
+					cls += "|after-SetConfiguration(" + rc.name + ")=" + reconfigured
+				}
 				rep := map[string]any{"part": "seam-advertise", "config": cls, "advertised": all, "sha256_of_presented": want}
 				c.Eval()
 				if len(all) == 0 {
